@@ -5,6 +5,7 @@
   by the start-up code `boot` from the persisted tree.
 -/
 import OLP.Shell.LemmasB
+import OLP.Shell.LemmasEx
 
 namespace OLP.Props.C08
 open OLP OLP.KV OLP.Shell
@@ -157,5 +158,206 @@ theorem underived_cache_diverges :
     (execBlock exCfg cacheH () (crash (fun _ => (fun _ => none)) cacheH n1) [2]).2.log := by
   dsimp only
   decide
+
+/-! ## Non-vacuity: an application whose volatile memory is genuinely used and derived
+
+  The volatile cell 0 caches the VALUE STORED UNDER KEY 9 of the tree. `crBoot` recomputes it from
+  the persisted tree (`t.get 9`). The EndBlock hook of height `h`, aimed at the deliver state, writes
+  `h` under key 9 and, if the write was served, refreshes the cell with `.vset` (a write the block
+  gas meter refuses leaves both as they are). The cell is consensus-relevant: the BeginBlock hook
+  copies `cell + 100` into key 8 and every ProcessDeliver copies it into key 2 — a stale cell would
+  change the commit log (this is what goes wrong in `underived_cache_diverges`, where start-up does
+  not rebuild the cell). Validate burns gas and refuses transaction 0; ProcessDeliver reads the
+  counter under key 1, adds the transaction to it and fails for transaction 9 after its writes; the
+  fee step reads the gas counter; the block gas limit is 10000.
+
+  `VolDerived` is PROVED for these handlers, for every node and every block (`cr_volDerived`): no
+  deliver-path program writes key 9 (`cr_avoids9`), so what Commit writes under key 9 is what the
+  hook put there, or what the tree held before when the hook's write was refused. -/
+
+def crH : Handlers Nat Nat Nat Unit Nat Nat Nat :=
+  { hash := id,
+    validate := fun tx => .burn 5 (if tx = 0 then .fail else .ret ()),
+    check := fun _ => .ret 0,
+    deliver := fun tx => .get 1 (fun r => match r with
+      | .val v => .set 1 (v.getD 0 + tx) (fun _ => .vget 0 (fun c => .set 2 (c.getD 0 + 100) (fun _ =>
+          if tx = 9 then .fail else .ret tx)))
+      | .errGas => .fail),
+    fee := fun _ g0 => .gas (fun g => .ret (g - g0)),
+    begin := fun _ => [(true, .vget 0 (fun c => .set 8 (c.getD 0 + 100) (fun _ => .ret ())))],
+    endb := fun h => [(true, .set 9 h (fun ok => if ok then .vset 0 (some h) (.ret ()) else .ret ()))],
+    gasLimit := 10000 }
+
+def crBoot (t : Tree Nat Nat) : Vol Nat Nat := fun c => if c = 0 then t.get 9 else none
+
+def crN : Node Nat Nat Nat Nat Nat Nat :=
+  { tree := Tree.empty ⟨1, 0, 0⟩, dlv := Ov.fresh 10000, chk := Ov.fresh 10000,
+    vol := crBoot (Tree.empty ⟨1, 0, 0⟩), idx := [], aim := .check, height := 0, closed := false }
+
+theorem cr_aimed : AllAimed crH := by
+  intro h
+  constructor
+  · intro hk hm
+    simp only [crH, List.mem_singleton] at hm
+    subst hm
+    rfl
+  · intro hk hm
+    simp only [crH, List.mem_singleton] at hm
+    subst hm
+    rfl
+
+theorem cr_noVset : DeliverNoVset crH := by
+  intro tx
+  refine ⟨?_, ?_, fun g => by simp [crH, Prog.NoVset]⟩
+  · simp only [crH, Prog.NoVset]
+    split <;> simp [Prog.NoVset]
+  · simp only [crH, Prog.NoVset]
+    intro r
+    split
+    · intro _ _ _
+      split <;> simp [Prog.NoVset]
+    · trivial
+
+theorem cr_avoids9 : DeliverAvoids 9 crH := by
+  intro tx
+  refine ⟨?_, ?_, fun g => by simp [crH, Prog.Avoids]⟩
+  · simp only [crH, Prog.Avoids]
+    split <;> simp [Prog.Avoids]
+  · simp only [crH, Prog.Avoids]
+    intro r
+    split
+    · refine ⟨by decide, fun _ _ => ⟨by decide, fun _ => ?_⟩⟩
+      split <;> simp [Prog.Avoids]
+    · trivial
+
+theorem cr_volDerived : VolDerived exCfg crBoot crH := by
+  intro e n txs hb hv
+  obtain ⟨ht, _, _, _⟩ := execBlock_tree exCfg crH e n txs
+  -- the node `m` before EndBlock
+  have hb0 := beginBlock_frame exCfg crH e n
+  have hbv : (beginBlock exCfg crH e n).vol = n.vol :=
+    hooks_vol exCfg e _ (by
+      intro hk hm
+      simp only [crH, List.mem_singleton] at hm
+      subst hm
+      simp [Prog.NoVset]) _
+  have hbk : 9 ∉ akeys (beginBlock exCfg crH e n).dlv.cache :=
+    hooks_keyFree exCfg e 9 _ (by
+      intro hk hm
+      simp only [crH, List.mem_singleton] at hm
+      subst hm
+      exact ⟨rfl, by simp [Prog.Avoids]⟩) _ rfl (by simp [Ov.fresh, akeys])
+  generalize hm : (deliverAll exCfg crH e (beginBlock exCfg crH e n) txs).1 = m at ht
+  have mv : m.vol = n.vol := by
+    rw [← hm, deliverAll_vol exCfg crH e cr_noVset, hbv]
+  have mh : m.height = n.height := by
+    rw [← hm]; exact (deliverAll_frame exCfg crH e txs _).2.2.1.trans hb0.2.2.1
+  have ms : m.dlv.sess = none := by
+    rw [← hm]; exact deliverAll_sess_none exCfg crH e txs _ hb0.2.2.2
+  have mk : 9 ∉ akeys m.dlv.cache := by
+    rw [← hm]; exact deliverAll_keyFree exCfg crH e 9 cr_avoids9 txs _ hbk
+  -- EndBlock: the hook's write is refused (nothing changes) or lands in the block cache and the cell
+  have hend : ((endBlock exCfg crH e m).dlv.cache = m.dlv.cache ∧ (endBlock exCfg crH e m).vol = m.vol) ∨
+      ((endBlock exCfg crH e m).dlv.cache = upsert m.dlv.cache 9 (m.height + 1) ∧
+       (endBlock exCfg crH e m).vol = m.vol.set 0 (some (m.height + 1))) := by
+    have hc := set_nosess_cases exCfg (m.dlv.toSt m.tree) 9 (m.height + 1) ms
+      (by show m.height + 1 ≠ 0; omega)
+    simp only [endBlock, crH, List.foldl_cons, List.foldl_nil, runHook, Bool.true_or, if_true, Prog.run]
+    generalize (m.dlv.toSt m.tree).set exCfg 9 (m.height + 1) = r at hc
+    rcases hc with hc | ⟨h1, h2⟩
+    · subst hc
+      left
+      exact ⟨rfl, rfl⟩
+    · obtain ⟨r1, r2⟩ := r
+      simp only at h1 h2
+      subst h1
+      right
+      exact ⟨h2, rfl⟩
+  have hfv : (execBlock exCfg crH e n txs).1.vol = (endBlock exCfg crH e m).vol := by
+    rw [← hm]; rfl
+  rw [hfv, ht]
+  funext c
+  unfold crBoot
+  have hg : ∀ t : Tree Nat Nat, t.commit.get 9 = t.get 9 := by
+    intro t; unfold Tree.get; rw [(commit_fields t).1]
+  rw [hg]
+  rcases hend with ⟨h1, h2⟩ | ⟨h1, h2⟩
+  · rw [h1, h2, mv, hv, writeInto_get_of_not_mem exCfg _ _ 9 mk]
+    rfl
+  · rw [h1, h2, mv, hv, writeInto_get_upsert_new exCfg _ _ 9 _ mk (by show m.height + 1 ≠ 0; omega)]
+    unfold Vol.set crBoot
+    by_cases hc : c = 0 <;> simp [hc]
+
+theorem crN_boundary : crN.AtBoundary ∧ crN.tree.WF ∧ crN.vol = crBoot crN.tree := by
+  refine ⟨⟨rfl, rfl, rfl, rfl, rfl⟩, ?_, rfl⟩
+  simp [Tree.WF, crN, Tree.empty]
+
+/-- two blocks; the first is interrupted after its first transaction and again after EndBlock, the
+    second after EndBlock and again right after BeginBlock; every time the node restarts from disk
+    and replays the block -/
+def crHist : List (List Nat × List (Nat × Bool)) :=
+  [([5, 9, 0], [(1, false), (3, true)]), ([7, 3], [(2, true), (0, false)])]
+
+/-- `history_with_crashes_converges` applied: all its hypotheses are proved -/
+theorem crash_history_instance :
+    (execHistoryWithCrashes exCfg crH () crBoot crN crHist).map (fun o => (o.results, o.log)) =
+    (execBlocks exCfg crH () crN (crHist.map (·.1))).2.map (fun o => (o.results, o.log)) :=
+  history_with_crashes_converges exCfg crH () crBoot cr_aimed cr_volDerived crN crN_boundary.1
+    crN_boundary.2.1 crN_boundary.2.2 crHist
+
+/-- `replay_converges` applied to a crash after the second transaction of block 1 -/
+theorem replay_instance :
+    let restarted := crash crBoot crH (midBlock exCfg crH () crN [5, 9, 0] 2 false)
+    (execBlock exCfg crH () restarted [5, 9, 0]).2.results = (execBlock exCfg crH () crN [5, 9, 0]).2.results ∧
+    (execBlock exCfg crH () restarted [5, 9, 0]).2.log = (execBlock exCfg crH () crN [5, 9, 0]).2.log ∧
+    (execBlock exCfg crH () restarted [5, 9, 0]).1.consensus = (execBlock exCfg crH () crN [5, 9, 0]).1.consensus :=
+  replay_converges exCfg crH () crBoot cr_aimed crN crN_boundary.1 crN_boundary.2.2 [5, 9, 0] 2 false
+
+/-- … and what that looks like, recomputed on both sides: the transcripts of the crashed-and-replayed
+    run and of the uninterrupted run are the same two concrete blocks (transaction 9 fails after its
+    writes, transaction 0 is refused; keys 8 and 2 carry the cached height + 100) -/
+theorem crash_history_facts :
+    (execHistoryWithCrashes exCfg crH () crBoot crN crHist).map (fun o => (o.results, o.log)) =
+      [([⟨true, some 5, 25⟩, ⟨false, none, 27⟩, ⟨false, none, 0⟩],
+        [.set 8 100, .set 1 5, .set 2 100, .set 9 1, .save]),
+       ([⟨true, some 7, 25⟩, ⟨true, some 3, 27⟩],
+        [.set 8 101, .set 1 15, .set 2 101, .set 9 2, .save])] ∧
+    (execBlocks exCfg crH () crN [[5, 9, 0], [7, 3]]).2.map (fun o => (o.results, o.log)) =
+      [([⟨true, some 5, 25⟩, ⟨false, none, 27⟩, ⟨false, none, 0⟩],
+        [.set 8 100, .set 1 5, .set 2 100, .set 9 1, .save]),
+       ([⟨true, some 7, 25⟩, ⟨true, some 3, 27⟩],
+        [.set 8 101, .set 1 15, .set 2 101, .set 9 2, .save])] := by
+  decide +kernel
+
+/-- the final nodes: same tree contents, same write log, same version, same volatile cell -/
+theorem crash_history_final_node :
+    let c1 := (execBlockWithCrashes exCfg crH () crBoot crN [5, 9, 0] [(1, false), (3, true)]).1
+    let c2 := (execBlockWithCrashes exCfg crH () crBoot c1 [7, 3] [(2, true), (0, false)]).1
+    let u2 := (execBlocks exCfg crH () crN [[5, 9, 0], [7, 3]]).1
+    c2.tree.working = [(8, 101), (1, 15), (2, 101), (9, 2)] ∧ u2.tree.working = c2.tree.working ∧
+    c2.tree.log = [.set 8 100, .set 1 5, .set 2 100, .set 9 1, .save,
+                   .set 8 101, .set 1 15, .set 2 101, .set 9 2, .save] ∧ u2.tree.log = c2.tree.log ∧
+    c2.tree.version = 2 ∧ u2.tree.version = 2 ∧ c2.vol 0 = some 2 ∧ u2.vol 0 = some 2 ∧
+    c2.idx = u2.idx := by
+  dsimp only
+  decide +kernel
+
+/-- the crashes do destroy something. Mid-block (block 1, two transactions delivered) the block
+    cache holds three pending writes and 272 units of gas are consumed: the restart has an empty
+    cache. After EndBlock of block 2 the hook has already moved the volatile cell to 2 while the tree
+    is still at version 1: the restart recomputes the cell from the tree (1), and this is what makes
+    the replayed BeginBlock hook write 101 again, not 102 -/
+theorem crash_points_facts :
+    let m1 := midBlock exCfg crH () crN [5, 9, 0] 2 false
+    let n1 := (execBlock exCfg crH () crN [5, 9, 0]).1
+    let m2 := midBlock exCfg crH () n1 [7, 3] 2 true
+    m1.dlv.cache = [(8, 100), (1, 5), (2, 100)] ∧ m1.dlv.gas = ⟨10000, 272⟩ ∧
+    (crash crBoot crH m1).dlv.cache = [] ∧ (crash crBoot crH m1).dlv.gas = ⟨10000, 0⟩ ∧
+    m2.dlv.cache = [(8, 101), (1, 15), (2, 101), (9, 2)] ∧ m2.vol 0 = some 2 ∧
+    m2.tree.working = [(8, 100), (1, 5), (2, 100), (9, 1)] ∧
+    (crash crBoot crH m2).dlv.cache = [] ∧ (crash crBoot crH m2).vol 0 = some 1 ∧
+    (crash crBoot crH m2).tree.working = [(8, 100), (1, 5), (2, 100), (9, 1)] := by
+  dsimp only
+  decide +kernel
 
 end OLP.Props.C08
